@@ -97,8 +97,10 @@ def render_ovf(body, rng, style):
     ids = style.get("ids", "plain")
     fm = body["fmap"]
     fm = fm if isinstance(fm, dict) else {i + 1: v for i, v in enumerate(fm)}
-    fid = {"plain": {1: "file1", 2: "file2"}, "alphabet": {1: "ovf", 2: "fvo:o"}, "words": {1: "file", 2: "1"}, "words2": {1: "elif", 2: "file-file"}}[ids]
-    did = {"plain": {1: "vmdisk1", 2: "vmdisk2"}, "alphabet": {1: "vof", 2: "ffo"}, "words": {1: "disk1", 2: "1"}, "words2": {1: "system", 2: "kdisk-id"}}[ids]
+    fid = {"plain": {1: "file1", 2: "file2"}, "alphabet": {1: "ovf", 2: "fvo:o"}, "words": {1: "file", 2: "1"}, "words2": {1: "elif", 2: "file-file"},
+           "case": {1: "File_2", 2: "file_2"}}[ids]   # identifiers are case sensitive
+    did = {"plain": {1: "vmdisk1", 2: "vmdisk2"}, "alphabet": {1: "vof", 2: "ffo"}, "words": {1: "disk1", 2: "1"}, "words2": {1: "system", 2: "kdisk-id"},
+           "case": {1: "vmDisk1", 2: "vmdisk1"}}[ids]
     href = {1: "disk one.vmdk", 2: "second-disk ✓.vmdk"}
     po, pr = style.get("po", "ovf"), style.get("pr", "rasd")
     x = [f'<?xml version="1.0" encoding="UTF-8"?>',
@@ -173,7 +175,9 @@ def render_pvs(body, rng, style):
 # file names with characters that mean something elsewhere in the grammar (comment marker, assignment, escapes, separators)
 VMX_NAME_POOL = ["disk {} dïsk.vmdk", "data #2 {}.vmdk", "#scratch {}.vmdk", "a=b {}.vmdk", "{} = x.vmdk", "semi;colon {}.vmdk", "per%20cent {}.vmdk",
                  "back\\slash\\{}.vmdk", "/vmfs/volumes/ds 1/{}/disk.vmdk", "C:\\vms\\{}\\disk.vmdk", "tab\t{}.vmdk", "it's {}.vmdk", "{}|pipe&amp.vmdk",
-                 "{} .vmdk", "scsi0:0.fileName {}.vmdk", "{}.vmdk #not a comment"]
+                 "{} .vmdk", "scsi0:0.fileName {}.vmdk", "{}.vmdk #not a comment",
+                 # characters that str.splitlines() treats as line boundaries (a VMX line ends at "\n" only)
+                 "Backup\x85{}.vmdk", "ls\u2028{}.vmdk", "ff\x0c{}.vmdk", "vt\x0b{} fs\x1c.vmdk"]
 VMX_STYLES = [
     {"case": "asis", "typecase": "asis", "shuffle": False, "comments": False, "spacing": False, "quotes": "all", "crlf": False},
     {"case": "lower", "typecase": "upper", "shuffle": True, "comments": True, "spacing": True, "quotes": "all", "crlf": True},
@@ -184,7 +188,7 @@ VMX_STYLES = [
     {"case": "asis", "typecase": "asis", "shuffle": True, "comments": False, "spacing": False, "quotes": "all", "crlf": False, "aba": True},
 ]
 OVF_STYLES = [{"ids": "plain"}, {"ids": "alphabet", "po": "o", "pr": "r"}, {"ids": "alphabet", "po": "ovf", "pr": "rasd", "nl": False},
-              {"ids": "words"}, {"ids": "words2", "po": "disk", "pr": "file"}]
+              {"ids": "words"}, {"ids": "words2", "po": "disk", "pr": "file"}, {"ids": "case"}]
 
 
 def observe(kind, body, rng, style, history=None):
